@@ -44,6 +44,12 @@ SCHEMA = {
     "SplitDistribution.sum_of_tree_weights": "real",
     "SplitDistribution._trees_counted_for_freqs": "int",
     "SplitDistribution._trees_counted_for_summaries": "int",
+    # the two summary tables: their CONTENT is abstracted (statistics over value lists); what is modelled is whether there is a table
+    # and -- ghost -- how many trees had been counted when it was computed
+    "SplitDistribution._split_edge_length_summaries": "opt map:int:int",
+    "SplitDistribution._split_node_age_summaries": "opt map:int:int",
+    "SplitDistribution.g_len_at": "ghost int",
+    "SplitDistribution.g_age_at": "ghost int",
     "SplitDistribution.use_tree_weights": "opt bool",
     "SplitDistribution.ignore_edge_lengths": "opt bool",
     "SplitDistribution.ignore_node_ages": "opt bool",
@@ -166,6 +172,45 @@ CONTRACTS.append(
                           "forall_int(lambda s: implies(forall_int(lambda j: implies(0 <= j and j < length({e}), at({e}, j).split_bitmask != s)), "
                           "has(self.split_counts, s) == old(has(self.split_counts, s)) and get(self.split_counts, s) == old(get(self.split_counts, s))))").format(e=ENC)}))
 
+# ---- the summary tables (per-split edge-length / node-age statistics) are caches with ONE staleness counter between them.
+# Representation invariant: a table that is present while the counter equals the number of trees counted was computed from exactly
+# those trees; the counter never exceeds the number of trees counted.
+def _tab_inv(x, tab, g):
+    return ("implies(not isnone({x}.{t}) and {x}._trees_counted_for_summaries == {x}.total_trees_counted, {x}.{g} == {x}.total_trees_counted)").format(x=x, t=tab, g=g)
+
+
+def SUMM_INV(x="self"):
+    return (_tab_inv(x, "_split_edge_length_summaries", "g_len_at") + " and " + _tab_inv(x, "_split_node_age_summaries", "g_age_at") +
+            " and 0 <= {x}._trees_counted_for_summaries and {x}._trees_counted_for_summaries <= {x}.total_trees_counted".format(x=x))
+
+
+SUMMARY_TABLES = (("_split_edge_length_summaries", "g_len_at", "calc_split_edge_length_summaries", "_get_split_edge_length_summaries"),
+                  ("_split_node_age_summaries", "g_age_at", "calc_split_node_age_summaries", "_get_split_node_age_summaries"))
+SUMM_ASSUMED, SUMM_CONTRACTS = [], []
+for _tab, _g, _calc, _getter in SUMMARY_TABLES:
+    # calc_*: recomputes its table from every value list the distribution holds (content abstracted) -- ASSUMED; that it writes nothing but
+    # its own table is an obligation on the real body (summary_calc_frames below)
+    SUMM_ASSUMED.append(Contract(TC + ":SplitDistribution." + _calc, types={"return": "opaque"}, requires="True", modifies=["self." + _tab, "self." + _g],
+                                 frame=False, assumed=True,
+                                 ensures={"table-of-everything-counted": "not isnone(self.%s) and self.%s == self.total_trees_counted" % (_tab, _g)}))
+    SUMM_CONTRACTS.append(Contract(TC + ":SplitDistribution." + _getter, types={"return": "opaque"}, requires=SUMM_INV(),
+                                   modifies=["self." + _tab, "self." + _g], frame=False,
+                                   ensures={"the-table-is-of-the-trees-counted-now": "not isnone(self.%s) and self.%s == self.total_trees_counted" % (_tab, _g),
+                                            "summary-cache-protocol": SUMM_INV()}))
+
+# every method that touches the counter, the number of trees counted or a table keeps the protocol invariant
+for _c in CONTRACTS:
+    _m = _c.name.split(".")[-1]
+    if _m in ("calc_freqs", "_get_split_frequencies", "__getitem__", "update", "count_splits_on_tree"):
+        _c.requires_core, _c.modifies_core = _c.requires, list(_c.modifies)   # the accumulator part alone (used by contracts/C06.py as a callee contract)
+        _c.requires = "(%s) and %s" % (_c.requires, SUMM_INV()) if _c.requires and _c.requires != "True" else SUMM_INV()
+        if _m == "update":
+            _c.requires += " and " + SUMM_INV("split_dist")     # the argument is a distribution in a consistent state too
+        _c.ensures["summary-cache-protocol"] = SUMM_INV()
+        for _f in ("self._split_edge_length_summaries", "self._split_node_age_summaries"):
+            if _f not in _c.modifies:
+                _c.modifies.append(_f)
+
 # assumed (C01's subject, proved there for the bitmask algebra and checked bounded for whole trees): a fresh encoding
 # lists every split of the tree once.  The one known exception is recorded as C05-two-leaf-unrooted.
 ASSUMED = [
@@ -182,7 +227,55 @@ class SDExecutor(Executor3):
     lenient = True
 
 
-SUITE = Suite(SCHEMA, [TC, TX_TREE], CONTRACTS + ASSUMED, executor_cls=SDExecutor)
+SUITE = Suite(SCHEMA, [TC, TX_TREE], CONTRACTS + SUMM_CONTRACTS + SUMM_ASSUMED + ASSUMED, executor_cls=SDExecutor)
+
+
+def summary_calc_frames(ctx):
+    """the real bodies of the two calc_* functions assign no attribute of self but their own table (in particular not the staleness counter
+    the two tables share) -- the frame their ASSUMED contract states"""
+    import ast
+    import time
+    from dpvc import frontend
+    m = frontend.module(TC)
+    ci = m.classes["SplitDistribution"]
+    out = []
+    for tab, g, calc, getter in SUMMARY_TABLES:
+        t0 = time.time()
+        fn = ci.methods[calc]
+        bad = []
+        for n in ast.walk(fn):
+            tgt = None
+            if isinstance(n, ast.Attribute) and isinstance(n.ctx, (ast.Store, ast.Del)) and isinstance(n.value, ast.Name) and n.value.id == "self":
+                tgt = n.attr
+            if tgt is not None and tgt != tab:
+                bad.append("line %d: self.%s" % (n.lineno, tgt))
+        name = "SplitDistribution.%s.assigns-only-its-own-table" % calc
+        ctx.obligation(name, "proved" if not bad else "refuted", "ast-scan", time.time() - t0, TC + ":SplitDistribution." + calc, detail=None if not bad else "; ".join(bad))
+        if bad:
+            out.append((name, bad))
+    return out
+
+
+def native_summary_tables_stale():
+    """native witness: a summary is looked at, more trees are counted, both tables are read one after the other"""
+    import dendropy
+    ns = dendropy.TaxonNamespace(["A", "B", "C"])
+    trees = [dendropy.Tree.get(data="[&R] ((A:%s,B:%s):1,C:%s);" % (x, x, x + 1), schema="newick", taxon_namespace=ns) for x in (1.0, 2.0, 4.0)]
+    sd = dendropy.SplitDistribution(taxon_namespace=ns)
+    sd.ignore_node_ages = False
+    sd.count_splits_on_tree(trees[0])
+    sd.split_edge_length_summaries, sd.split_node_age_summaries
+    for t in trees[1:]:
+        sd.count_splits_on_tree(t)
+    for order in (("split_edge_length_summaries", "split_node_age_summaries"), ("split_node_age_summaries", "split_edge_length_summaries")):
+        tabs = dict((nm, getattr(sd, nm)) for nm in order)
+        for nm, vals in (("split_edge_length_summaries", sd.split_edge_lengths), ("split_node_age_summaries", sd.split_node_ages)):
+            for sp, vv in vals.items():
+                vv = [v for v in vv if v is not None]
+                if vv and abs(tabs[nm][sp]["mean"] - sum(vv) / len(vv)) > 1e-9:
+                    return "after counting 1 tree, reading both tables, counting 2 more and reading %s then %s: %s of split %s has mean %r, the %d values collected have mean %r" % (
+                        order[0], order[1], nm, bin(sp), tabs[nm][sp]["mean"], len(vv), sum(vv) / len(vv))
+    return None
 
 
 def validate_assumed(ctx):
@@ -209,8 +302,16 @@ def t1(ctx):
                "split bitmasks are opaque integer dictionary keys; dictionaries are reached only through self.<field>")
     ctx.assume("C05/T1 covers the SplitDistribution accumulator (counting, merging, frequency table, lookup); consensus construction "
                "(Tree.from_split_bitmasks), summarisation, collapsing and credibility scores are decided by the bounded driver only (T2)")
-    for c in CONTRACTS:
+    for c in CONTRACTS + SUMM_CONTRACTS:
         verify_contract(ctx, SUITE, c, sentinels=False, replay=dreplay.replay_by_search(_states))
+    fr = summary_calc_frames(ctx)
+    if fr:
+        w = native_summary_tables_stale()
+        for name, bad in fr:
+            if w:
+                ctx.fail(name, dict(key="summary-tables|stale", sites=bad, outcome=w, replay_kind="summary-tables"), detail="%s (%s)" % (w, bad[0]), kind="T1")
+            else:
+                ctx.fail(name, dict(key="site:" + bad[0], sites=bad), detail="calc function assigns " + bad[0], kind="T1", no_input=True)
     validate_assumed(ctx)
 
 
